@@ -86,6 +86,7 @@ EXTRA_MORE = {
     'C10': [('bounded-cache-histories', _mk('cache_histories', 'all access histories of length 2 (3 thorough) over 17 operations on a 4-example cache with a freshly random upstream; memory threshold crossed after 0..4 stores'))],
     'C14': [('bounded-catch', _mk('catch_epochs', 'sources of 0..7 examples, all failing subsets up to size 3, single type / tuple / subclass, values and items, two epochs, reshuffled upstream over 4 epochs, lazy/eager/FilterException selection'))],
     'C15': [('bounded-split', _mk('split_exhaustive', 'all (n, k, i) with n <= 40 (300 thorough), k in [-1, n+2], shard indices {0, k-1, -1}'))],
+    'C20': [('bounded-profiling-transparency', _mk('profiling_transparency', 'the scenario pipelines of 13 stage classes (every third one in the quick tier), all observations incl. indices [-n-2, n+2), wrapped vs unwrapped, hit counts of the top wrapper'))],
     'C18': [('bounded-sort-groupby', _mk('sort_group', 'all value sequences over {0,1,2} up to length 5 (7 thorough), reverse on/off, incomparable payloads, scalar and tuple group ids'))],
 }
 
